@@ -183,7 +183,7 @@ def run(ck):
         hv = H.build_exec_harness('c10-hist-%s-asan' % ('ts' if ts else 'nots'), ts=ts)
         cfg = H.hx(b'[snoopy]\nmessage_format = "M %{cmdline}"\noutput = file:log\n')
         call = 'call execve %s [h61+h62] [] -1 2' % H.hx(b'/x')
-        for order in (['atforkexec', call], [call, 'atforkexec'], ['atforkexec'], ['atforkexec', call, call]):
+        for order in (['atforkexec', call], [call, 'atforkexec'], ['atforkexec'], ['atforkexec', call, call], ['atforkfork', call], [call, 'atforkfork'], ['atforkfork']):
             for depth in (1, 2):
                 script = ['sinks pipe', 'lean 1', 'cfg ' + cfg] + order + ['forkname ' + H.hx(b'kid')] * depth + [call, 'echo end']
                 w = os.path.join(ck.workdir, 'forkhist-%d' % hist_n)
